@@ -394,10 +394,97 @@ pub fn run(tier: Tier, _replay: Option<Value>) -> ! {
             }
         }
     }
+    // ---- glob words written in the source, mixing unquoted glob characters with quoted / escaped
+    //      segments (the dot-file rule looks at the *component*, whatever its quoting)
+    {
+        let pieces = ["*", "?", "[ab.]", "a", ".", "\".a\"", "'.'", "\\.", "\"a\"", "\\*", "d/"];
+        let words: Vec<String> = enumerate::strings(&pieces, tier.pick(3, 4)).into_iter().filter(|w| !w.is_empty() && !w.starts_with("d/d/")).collect();
+        let qtrees: Vec<Vec<&str>> = vec![vec!["a", ".a", "a.a", ".a.a", "b", "d/.a", "d/a.a", "d/..a"], vec![".a"], vec!["a.a", "d/a"]];
+        let mut body = String::new();
+        for (k, w) in words.iter().enumerate() {
+            body.push_str(&format!("echo \"#{k}\"\nvargs {w}\n"));
+        }
+        body.push_str("echo \"#E\"\n");
+        let mut qcases = vec![];
+        for t in &qtrees {
+            for dg in [false, true] {
+                qcases.push((t.clone(), dg));
+            }
+        }
+        let bc: Vec<Value> = qcases
+            .iter()
+            .map(|(t, dg)| {
+                let files: serde_json::Map<String, Value> = t.iter().map(|n| (n.to_string(), Value::String(String::new()))).collect();
+                json!({"s": format!("shopt -{} dotglob\n{body}", if *dg {"s"} else {"u"}), "files": files})
+            })
+            .collect();
+        let qb = common::run_scripts(&bc, 120_000);
+        let qspecs: Vec<crate::engine::procs::ProcSpec> = qcases
+            .iter()
+            .map(|(t, dg)| {
+                let mk: String = t.iter().map(|n| format!("mkdir -p \"$(dirname {0})\"; : > {0}\n", bash::sq(n))).collect();
+                let mut sp = bash::spec_file(bash::BASH, &format!("{}shopt -{} dotglob\nmkdir -p w && cd w || exit 9\n{mk}{body}", bash::BASH_VARGS, if *dg { "s" } else { "u" }), 120_000);
+                sp.env.push(("PATH".into(), "/usr/bin:/bin".into()));
+                sp
+            })
+            .collect();
+        let qo = crate::engine::procs::run_many(&qspecs, bash::procs_par());
+        let split = |out: &str| -> Vec<String> {
+            let mut v = vec![];
+            let mut cur = String::new();
+            let mut started = false;
+            for line in out.split_inclusive('\n') {
+                let is_marker = line.starts_with('#') && line.ends_with('\n') && line.len() > 2 && (line[1..line.len() - 1].chars().all(|c| c.is_ascii_digit()) || line == "#E\n");
+                if is_marker {
+                    if started {
+                        v.push(std::mem::take(&mut cur));
+                    }
+                    started = true;
+                } else {
+                    cur.push_str(line);
+                }
+            }
+            v
+        };
+        for (i, (t, dg)) in qcases.iter().enumerate() {
+            let a = if qb[i].crash.is_some() { vec![] } else { split(&qb[i].out) };
+            let b = split(&qo[i].out_str());
+            if b.len() != words.len() {
+                crate::engine::report::machinery_fail(&format!("bash produced {} sections for {} quoted glob words", b.len(), words.len()));
+            }
+            for (k, w) in words.iter().enumerate() {
+                rep.evaluations += 1;
+                let got = a.get(k).cloned().unwrap_or_else(|| qb[i].crash.clone().unwrap_or_else(|| "<missing>".into()));
+                if got.matches('\0').count() > 2 {
+                    rep.nontrivial.insert(format!("qglob|{w}|{i}"));
+                }
+                if got != b[k] {
+                    let mut tags = vec!["glob".to_string(), "glob:quoted-segments".to_string()];
+                    if w.contains('"') || w.contains('\'') {
+                        tags.push("glob:quoted".into());
+                    }
+                    if w.contains('\\') {
+                        tags.push("glob:escaped".into());
+                    }
+                    if w.contains('[') {
+                        tags.push("pat:bracket".into());
+                    }
+                    if w.contains("d/") {
+                        tags.push("glob:slash".into());
+                    }
+                    if *dg {
+                        tags.push("dotglob".into());
+                    }
+                    rep.fail(Failure { case: format!("glob word={w} tree={:?} dotglob={dg}", t), tags, expected: b[k].replace('\0', "␀"), observed: got.replace('\0', "␀"), oracle: "bash".into() });
+                }
+            }
+        }
+        rep.set("quoted_glob_words", words.len() as u64);
+    }
     rep.set("glob_trees", trees.len() as u64);
     rep.set("glob_patterns", gp.len() as u64);
     rep.rule = format!(
-        "all patterns over {:?} with <= {plen} symbols x all subjects over {:?} with <= 3 symbols, through `case $s in $p)`, `[[ $s == $p ]]`, the pattern literally in the source (when syntactically possible), and quoted (identity oracle), under the listed extglob/nocasematch settings; pathname expansion: all trees of <= {} names from {:?} x all patterns with <= 3 symbols over a 9-symbol alphabet x dotglob/nullglob; a pattern row is non-trivial when it matches some but not all subjects",
+        "all patterns over {:?} with <= {plen} symbols x all subjects over {:?} with <= 3 symbols, through `case $s in $p)`, `[[ $s == $p ]]`, the pattern literally in the source (when syntactically possible), and quoted (identity oracle), under the listed extglob/nocasematch settings; pathname expansion: all trees of <= {} names from {:?} x all patterns with <= 3 symbols over a 9-symbol alphabet x dotglob/nullglob; source-level glob words of <= 3/4 pieces mixing glob characters with quoted and escaped segments over 3 trees with dot-files; a pattern row is non-trivial when it matches some but not all subjects",
         SP,
         SS,
         tier.pick(2, 3),
